@@ -227,9 +227,9 @@ class Env:
                 d = l - r
                 if self.indicator_branch is not None and d.p:
                     d = S.subs_indicators(d, self.indicator_branch)
-                d0 = d if (isinstance(d, RF) and d.p and not d.is_const()) else None
                 if d.p:
                     d = self._drop_roundoff(d, l, r)
+                d0 = d if (isinstance(d, RF) and d.p and not d.is_const()) else None
                 if self._decide_zero(o, idx, d):
                     o.ok += 1
                     if d0 is not None and self.z3_budget > 0 and (zlib.crc32(("%s|%s|%s" % (self.seed, name, idx)).encode()) % self.z3_every) == 0:
